@@ -220,6 +220,11 @@ fn expand_args_in_tokens(tokens: &mut types::Tokens, args: &[String]) {
     }
 }
 
+/// after `set -e`: did the last command run so far fail?
+fn stop_on_error(sh: &shell::Shell, cr_list: &[CommandResult]) -> bool {
+    sh.exit_on_error && cr_list.last().map_or(false, |x| x.status != 0)
+}
+
 fn run_exp_test_br(sh: &mut shell::Shell,
                    pair_br: Pair<parsers::locust::Rule>,
                    args: &Vec<String>,
@@ -365,7 +370,7 @@ fn run_exp_for(sh: &mut shell::Shell,
                 let (mut _cr_list, _cont, _brk) = run_exp(
                     sh, pair.clone(), args, true, capture);
                 cr_list.append(&mut _cr_list);
-                if _brk {
+                if _brk || stop_on_error(sh, &cr_list) {
                     break;
                 }
             }
@@ -382,7 +387,7 @@ fn run_exp_while(sh: &mut shell::Shell,
     loop {
         let (mut _cr_list, passed, _cont, _brk) = run_exp_test_br(sh, pair_while.clone(), args, true, capture);
         cr_list.append(&mut _cr_list);
-        if !passed || _brk {
+        if !passed || _brk || stop_on_error(sh, &cr_list) {
             break;
         }
     }
@@ -432,7 +437,12 @@ fn run_exp(sh: &mut shell::Shell,
             }
         } else if rule == parsers::locust::Rule::EXP_IF {
             let (mut _cr_list, _cont, _brk) = run_exp_if(sh, pair, args, in_loop, capture);
+            let stop = stop_on_error(sh, &_cr_list);
             cr_list.append(&mut _cr_list);
+            if stop {
+                // `set -e`: a command failed inside the block
+                return (cr_list, false, false);
+            }
             if _cont {
                 return (cr_list, true, false);
             }
@@ -441,10 +451,18 @@ fn run_exp(sh: &mut shell::Shell,
             }
         } else if rule == parsers::locust::Rule::EXP_FOR {
             let mut _cr_list = run_exp_for(sh, pair, args, capture);
+            let stop = stop_on_error(sh, &_cr_list);
             cr_list.append(&mut _cr_list);
+            if stop {
+                return (cr_list, false, false);
+            }
         } else if rule == parsers::locust::Rule::EXP_WHILE {
             let mut _cr_list = run_exp_while(sh, pair, args, capture);
+            let stop = stop_on_error(sh, &_cr_list);
             cr_list.append(&mut _cr_list);
+            if stop {
+                return (cr_list, false, false);
+            }
         }
     }
     (cr_list, false, false)
